@@ -425,3 +425,49 @@ Proof.
   - pose proof (jsize_le_len (jsize j) j ltac:(lia)). rewrite app_length. lia.
   - cbn [rest_ok]. repeat split; try lia; try reflexivity.
 Qed.
+
+(* ---------- the JSON file format: rows separated by a bare comma ---------- *)
+Lemma pitems_rows F : (forall f, (f < F)%nat -> P f) ->
+  forall l f rest, (f < F)%nat -> l <> [] -> iok l -> (isize l <= f)%nat ->
+  pitems f (print_rows l ++ 93 :: rest) = Some (l, rest).
+Proof.
+  intros IH. induction l as [|x l IHl]; intros f rest LT NE OK SZ; [congruence|].
+  cbn [iok] in OK. destruct OK as [Ox Ol]. cbn [isize] in SZ.
+  destruct f as [|f']; [lia|]. cbn [pitems].
+  destruct l as [|y l'].
+  - cbn [print_rows]. rewrite (IH f' ltac:(lia) x (93 :: rest) Ox ltac:(lia) (rest_ok_sep 93 rest ltac:(lia))).
+    rewrite skip_ws_head by lia. reflexivity.
+  - change (print_rows (x :: y :: l')) with (jprint x ++ 44 :: print_rows (y :: l')).
+    rewrite <- app_assoc. cbn [app].
+    rewrite (IH f' ltac:(lia) x _ Ox ltac:(lia) (rest_ok_sep 44 _ ltac:(lia))).
+    rewrite skip_ws_head by lia. cbn [Z.eqb Pos.eqb].
+    rewrite (IHl f' rest ltac:(lia) ltac:(discriminate) Ol ltac:(cbn [isize] in *; lia)). reflexivity.
+Qed.
+
+Lemma print_rows_len : forall l, (isize l <= length (print_rows l) + 1)%nat.
+Proof.
+  induction l as [|x r IH]; [cbn; lia|]. pose proof (jsize_le_len (jsize x) x ltac:(lia)) as Hx.
+  destruct r as [|y r'].
+  - cbn [print_rows isize]. lia.
+  - change (print_rows (x :: y :: r')) with (jprint x ++ 44 :: print_rows (y :: r')).
+    rewrite app_length. cbn [length]. cbn [isize] in *. lia.
+Qed.
+
+Theorem jparse_json_file rows : iok rows -> jparse (json_file rows) = Some (JArr rows).
+Proof.
+  intros OK. unfold jparse, json_file.
+  set (n := length (91 :: print_rows rows ++ [93])).
+  assert (H : pval (S n) (91 :: print_rows rows ++ [93]) = Some (JArr rows, [])).
+  { cbn [pval]. rewrite skip_ws_head by (unfold head_ok; lia). cbn [Z.eqb Pos.eqb].
+    destruct rows as [|x l'].
+    - cbn [print_rows app]. rewrite skip_ws_head by lia. reflexivity.
+    - assert (HD : exists c t, print_rows (x :: l') ++ [93] = c :: t /\ head_ok c).
+      { cbn [iok] in OK. destruct (jprint_head x (proj1 OK)) as (c & t & E & Hc).
+        destruct l' as [|y l'']; cbn [print_rows]; rewrite E; cbn [app]; eexists _, _; (split; [reflexivity|exact Hc]). }
+      destruct HD as (c & t & E & Hc). rewrite E. rewrite skip_ws_head by (left; exact Hc).
+      assert (C : (c =? 93) = false) by (apply Z.eqb_neq; unfold head_ok in Hc; lia). rewrite C. rewrite <- E.
+      rewrite (pitems_rows (S n) (fun f _ => pval_print_all f) (x :: l') n [] ltac:(lia) ltac:(discriminate) OK).
+      + reflexivity.
+      + pose proof (print_rows_len (x :: l')). unfold n. cbn [length]. rewrite app_length. cbn [length]. lia. }
+  rewrite H. reflexivity.
+Qed.
